@@ -21,6 +21,9 @@ type gmap struct {
 	idx  map[value]*gent // concrete natively-comparable keys only
 	nsym int             // live entries with symbolic keys
 	lazy *lazyMap        // non-nil for lazily initialised maps
+	// multi: entries may shadow one another (a symbolic key was inserted
+	// without deciding whether it equals an existing key); later entries win.
+	multi bool
 }
 
 func makeMap(kt types.Type, reserve int64) value {
@@ -108,6 +111,9 @@ func (m *gmap) lookup(in *interpreter, k value) (value, bool) {
 	if m != nil && m.lazy != nil {
 		return m.lazy.lookup(in, m, k)
 	}
+	if m != nil && m.multi {
+		m.normalise(in)
+	}
 	e := m.find(in, k)
 	if e == nil {
 		return nil, false
@@ -115,11 +121,122 @@ func (m *gmap) lookup(in *interpreter, k value) (value, bool) {
 	return e.val, true
 }
 
+func scalarKind(v value) bool {
+	switch v.(type) {
+	case bool, string, int, int8, int16, int32, int64, uint, uint8, uint16, uint32, uint64, uintptr, sym:
+		return true
+	}
+	return false
+}
+
+// lookupScalar answers a lookup without forking when symbolic keys are
+// involved and all candidate values are scalars: the result is an ite chain
+// (newest entry first) and ok is a symbolic bool. handled=false means the
+// caller must use the forking lookup.
+func (m *gmap) lookupScalar(in *interpreter, k value, zeroV value) (v value, ok value, handled bool) {
+	if m == nil || m.lazy != nil {
+		return nil, nil, false
+	}
+	if !isSymbolic(k) && m.nsym == 0 {
+		return nil, nil, false
+	}
+	if !scalarKind(zeroV) {
+		return nil, nil, false
+	}
+	kind := kindOf(zeroV)
+	res := mustTerm(zeroV)
+	found := TFalse
+	for _, e := range m.ents { // oldest first; later entries wrap earlier ones
+		if e.dead {
+			continue
+		}
+		if !scalarKind(e.val) {
+			return nil, nil, false
+		}
+		c := equalsT(m.kt, e.key, k)
+		if c.lit && !c.b {
+			continue
+		}
+		res = Ite(c, mustTerm(e.val), res)
+		found = Or(c, found)
+	}
+	return mkval(res, kind), boolVal(found), true
+}
+
+// normalise resolves possible shadowing between entries by forking on key
+// equality (needed before len, range, delete or a non-scalar lookup).
+func (m *gmap) normalise(in *interpreter) {
+	if !m.multi {
+		return
+	}
+	live := m.live()
+	for i := len(live) - 1; i >= 0; i-- {
+		if live[i].dead {
+			continue
+		}
+		for j := i - 1; j >= 0; j-- {
+			if live[j].dead {
+				continue
+			}
+			c := equalsT(m.kt, live[i].key, live[j].key)
+			if c.lit && !c.b {
+				continue
+			}
+			if in.path.branch(c) {
+				e := live[j]
+				e.dead = true
+				m.n--
+				sy := isSymbolic(e.key)
+				if sy {
+					m.nsym--
+				} else if nativeKey(e.key) {
+					delete(m.idx, e.key)
+				}
+				in.path.logUndo(func() {
+					e.dead = false
+					m.n++
+					if sy {
+						m.nsym++
+					} else if nativeKey(e.key) {
+						m.idx[e.key] = e
+					}
+				})
+			}
+		}
+	}
+	m.multi = false
+	in.path.logUndo(func() { m.multi = true })
+}
+
 func (m *gmap) insert(in *interpreter, k, v value) {
 	if m == nil {
 		panic(targetPanic{v: "assignment to entry in nil map", stack: in.stack()})
 	}
 	in.noteWrite(m, "map update")
+	if in.path != nil && (isSymbolic(k) || m.nsym > 0) && scalarKind(v) {
+		// defer the decision whether k equals an existing key: append a shadowing entry
+		ne := &gent{key: k, val: v}
+		m.ents = append(m.ents, ne)
+		m.n++
+		sy := isSymbolic(k)
+		if sy {
+			m.nsym++
+		}
+		wasMulti := m.multi
+		m.multi = true
+		in.path.logUndo(func() {
+			m.ents = m.ents[:len(m.ents)-1]
+			m.n--
+			if sy {
+				m.nsym--
+			}
+			m.multi = wasMulti
+		})
+		return
+	}
+	if m.multi {
+		m.normalise(in)
+	}
 	e := m.find(in, k)
 	if e != nil {
 		old := e.val
@@ -156,6 +273,9 @@ func (m *gmap) delete(in *interpreter, k value) {
 		return
 	}
 	in.noteWrite(m, "map delete")
+	if m.multi {
+		m.normalise(in)
+	}
 	e := m.find(in, k)
 	if e == nil {
 		return
@@ -184,6 +304,16 @@ func (m *gmap) delete(in *interpreter, k value) {
 func (m *gmap) len() int {
 	if m == nil {
 		return 0
+	}
+	return m.n
+}
+
+func (m *gmap) lenNorm(in *interpreter) int {
+	if m == nil {
+		return 0
+	}
+	if m.multi && in.path != nil {
+		m.normalise(in)
 	}
 	return m.n
 }
